@@ -249,27 +249,3 @@ func classify(list []Atom) (unknown, hasNil bool, valid int) {
 
 	return
 }
-
-// sig names the operators of a filter list for the violation cell.
-func sig(list []Atom) string {
-	if len(list) == 0 {
-		return "nofilter"
-	}
-
-	var p []string
-
-	for _, a := range list {
-		switch a.Kind {
-		case "nil":
-			p = append(p, "nil")
-		case "unknown":
-			p = append(p, "unknown")
-		default:
-			p = append(p, a.Op)
-		}
-	}
-
-	sort.Strings(p)
-
-	return strings.Join(p, "+")
-}
